@@ -144,6 +144,9 @@ func (fr *Frame) run(st0 *State, pc0 Term) {
 				x := stack[len(stack)-1]
 				stack = stack[:len(stack)-1]
 				for _, s := range x.Succs {
+					if s.Dominates(x) {
+						continue // back edge: cut at the loop head; facts of one iteration do not flow past the invariant
+					}
 					if !seen[s.Index] {
 						seen[s.Index] = true
 						stack = append(stack, s)
